@@ -4,7 +4,7 @@ from __future__ import annotations
 from ..core.runner import HarnessError
 from ..ctext.odetext import NotC, read_ode
 from . import odecommon as oc
-from .c02 import modifier_cases
+from .c02 import modifier_cases, modifier_thermal_cases
 
 LEVEL = "exploration"
 
@@ -15,6 +15,7 @@ def cases(tier):
     yield from oc.enum_S2(tier)
     yield from oc.enum_S3(tier)
     yield from oc.enum_S4(tier)
+    yield from modifier_thermal_cases("quick")
     if tier != "quick":
         yield from modifier_cases("quick")
 
